@@ -280,6 +280,58 @@ for every element and `|q| ≤ 127`. -/
 example : quantizeBlockExact [254, -100, 0, 2] = some ([127, -50, 0, 1], 2) ∧
     quantizeBlockExact [0, 0] = some ([0, 0], 0) ∧ quantizeBlockExact [3, 1] = none := by decide
 
+/-! ### Checked variants (no silent truncation on a wrong number of scales) -/
+
+/-- **C37.T1 (checked)** With the length checks made explicit — LHS and weights of equal length and
+exactly one scale per (possibly partial) block, `none` otherwise — the factored form and the
+reference agree, as `Option`s. -/
+theorem c37_factored_eq_dequantize_checked (bs : Nat) (scales a q : List R) :
+    factoredBlocksChecked bs scales a q = refDotChecked bs scales a q := by
+  unfold factoredBlocksChecked refDotChecked
+  split
+  · rename_i h
+    rw [c37_factored_eq_dequantize bs scales a q h.1]
+  · rfl
+
+theorem expandScales_length (bs : Nat) : ∀ (scales : List R), (expandScales bs scales).length = scales.length * bs
+  | [] => by simp [expandScales]
+  | s :: ss => by
+    rw [expandScales_cons, List.length_append, List.length_replicate, expandScales_length bs ss,
+      List.length_cons, Nat.add_mul, Nat.one_mul, Nat.add_comm]
+
+theorem numBlocks_mul_ge (bs len : Nat) (hbs : 0 < bs) : len ≤ numBlocks bs len * bs := by
+  unfold numBlocks
+  have h1 := Nat.div_add_mod (len + bs - 1) bs
+  have h2 := Nat.mod_lt (len + bs - 1) hbs
+  rw [Nat.mul_comm] at h1
+  omega
+
+/-- **C37.T3 (checked)** Int8 mode with explicit length checks equals the checked reference applied
+to the de-quantised LHS, for quantised LHS and weights of equal length: both are `none` unless
+there is exactly one column scale and one row scale per block. -/
+theorem c37_int8_mode_eq_dequantize_checked (u : Bool) (bs : Nat) (hbs : 0 < bs) (cs rs l q : List R)
+    (hr : rs.length = cs.length) (hl : l.length = q.length) :
+    int8BlocksChecked u bs cs rs l q = refDotChecked bs cs (scaleLhs bs rs l) q := by
+  unfold int8BlocksChecked refDotChecked
+  by_cases h : cs.length = numBlocks bs l.length
+  · have hlen : (scaleLhs bs rs l).length = l.length := by
+      unfold scaleLhs
+      rw [List.length_zipWith, expandScales_length, hr, h]
+      exact Nat.min_eq_right (numBlocks_mul_ge bs l.length hbs)
+    rw [if_pos ⟨hl, h, hr⟩, hlen, if_pos ⟨hl, h⟩, c37_int8_mode_eq_dequantize u bs cs rs l q hl hr.symm]
+  · rw [if_neg (fun hh => h hh.2.1)]
+    have hle : (scaleLhs bs rs l).length ≤ l.length := scaleLhs_length_le bs rs l
+    rw [if_neg]
+    intro h2
+    apply h
+    have hfull : (scaleLhs bs rs l).length = l.length := by omega
+    rw [← hfull]; exact h2.2
+
+example : refDotChecked (R := Int) 4 [2, -3] [1, -2, 3, 4, 5, -6, 7] [0, 15, 8, 7, 1, 9, 12] = some (-13) ∧
+    refDotChecked (R := Int) 4 [2] [1, -2, 3, 4, 5, -6, 7] [0, 15, 8, 7, 1, 9, 12] = none ∧
+    factoredBlocksChecked (R := Int) 4 [2, -3, 5] [1, -2, 3, 4, 5, -6, 7] [0, 15, 8, 7, 1, 9, 12] = none := by
+  decide
+
 /-- The API cannot express a partial final block: `rows() = k_blocks · block_size`, and an LHS whose
 K differs is rejected with `KSizeMismatch` (model of the argument checks; tied by the harness). -/
 theorem c37_partial_block_rejected (kBlocks blockBytes lhsK n m batch : Nat)
